@@ -3,9 +3,10 @@
 (M) TLC exhausts specs/auth/AuthVerify.tla (VerifyToken = lookup / query-holding-the-connection /
     insert / return, mutator = exec / flush+return, a FIFO pool with one connection, and the
     driver's kick scheduler) with 1 and 2 concurrent verifiers: no verification started after
-    the mutator returned succeeds, the final verification is rejected, nobody starves.  Three
-    variants (two pooled connections, rows closed before the insert, flush before the exec)
-    must fail: they document what carries the property and are the mutations the binding must
+    the mutator returned succeeds, the final verification is rejected, nobody starves; the same holds when
+    no mutator runs but expires_at passes (entries never outlive expires_at, fix b7d5157).  Four
+    negative controls (two pooled connections, rows closed before the insert, flush before the
+    exec, entries outliving expires_at) must fail: they document what carries the property and are the mutations the binding must
     catch.
 (G) every complete schedule of the 1-verifier model (and a seeded sample of the 2-verifier
     model; thorough: many more) is realised by harness/cmd/authverify on the real AuthManager
@@ -50,12 +51,13 @@ def run(ctx):
     jobs = [lambda: ctx.tlc("auth", "AuthVerify", "Verify_MC_small.cfg", coverage=True, workers=2, heap="1g", timeout=1800),
             lambda: ctx.tlc("auth", "AuthVerify", "Verify_MC_large.cfg", coverage=True, workers=2, heap="1g", timeout=1800),
             lambda: ctx.tlc("auth", "AuthVerify", "Verify_Gen_small.cfg", workers=2, heap="1g", timeout=1800),
-            lambda: ctx.tlc("auth", "AuthVerify", "Verify_Gen_large.cfg", workers=2, heap="2g", timeout=1800)]
+            lambda: ctx.tlc("auth", "AuthVerify", "Verify_Gen_large.cfg", workers=2, heap="2g", timeout=1800),
+            lambda: ctx.tlc("auth", "AuthVerify", "Verify_MC_lapse.cfg", workers=1, heap="1g", timeout=1800)]
     for v in variants:
         jobs.append(lambda v=v: ctx.tlc("auth", "AuthVerify", "Verify_Var_%s.cfg" % v, workers=1, heap="1g", timeout=1800, allow_violation=True))
     jobs.append(build)
     res = par(jobs)
-    mc1, mc2, g1, g2 = res[:4]
+    mc1, mc2, g1, g2, mcl = res[:5]
     acts = ("VLookup", "VQuery", "VScan", "VInsert", "MStart", "MExec", "MFlush")
     for name, mc in (("Verify_MC_small.cfg", mc1), ("Verify_MC_large.cfg", mc2)):
         for a in acts:
@@ -63,10 +65,11 @@ def run(ctx):
                 raise InfraError("vacuous model %s: action %s never fired" % (name, a))
     ctx.note("tlc_model_check", {"one_verifier": {"distinct": mc1.distinct, "generated": mc1.generated, "depth": mc1.depth},
                                  "two_verifiers": {"distinct": mc2.distinct, "generated": mc2.generated, "depth": mc2.depth},
+                                 "expiry_lapse_one_verifier": {"distinct": mcl.distinct, "generated": mcl.generated, "depth": mcl.depth},
                                  "invariants": ["NoLateSuccess", "FinalRejected", "NoStalePending", "NoStarvation"],
                                  "actions_fired": {a: mc2.coverage[a][0] for a in acts}})
     vnote = {}
-    for v, r in zip(variants, res[4:4 + len(variants)]):
+    for v, r in zip(variants, res[5:5 + len(variants)]):
         if r.violated != "Safety":
             raise InfraError("variant %s no longer violates Safety: the model lost its discriminating power" % v)
         vnote[v] = {"violated": r.violated, "distinct_when_found": r.distinct}
